@@ -350,6 +350,7 @@ type edgeClass struct {
 	consumed, held bool
 	newline        bool // a consuming target carries the new_line action
 	noNewline      []string
+	nlProblems     []string // line-start records that do not fit the byte consumed
 }
 
 func (a *Analysis) classify(n int, b byte) edgeClass {
@@ -379,6 +380,28 @@ func (a *Analysis) classify(n int, b byte) edgeClass {
 			}
 			if o.Has("newline") != nil {
 				hasNL = true
+			}
+			if consumed && (b == '\n' || b == '\r') {
+				scens := []byteScen{{cur: b, next: -1, nextNot: -1}}
+				if b == '\r' {
+					scens = []byteScen{{cur: b, next: '\n', nextNot: -1}, {cur: b, next: -1, nextNot: '\n'}, {cur: b, next: -1, nextNot: -1, atEOF: true}}
+				}
+				for _, sc := range scens {
+					if !a.M.feasible(o, sc) {
+						continue
+					}
+					if why := lineStarts(o, sc); why != "" {
+						what := "LF"
+						if b == '\r' && sc.next == '\n' {
+							what = "CR followed by LF"
+						} else if b == '\r' && sc.atEOF {
+							what = "CR at the end of the input"
+						} else if b == '\r' {
+							what = "CR not followed by LF"
+						}
+						ec.nlProblems = append(ec.nlProblems, fmt.Sprintf("%s: on %s the path [%s] %s", t, what, strings.Join(o.Conds, " && "), why))
+					}
+				}
 			}
 		}
 		if cons && hasNL {
@@ -410,8 +433,10 @@ func (a *Analysis) NewlineAction() *report.RuleResult {
 				name := map[byte]string{10: "LF", 13: "CR"}[b]
 				key := fmt.Sprintf("%s/%s", a.stateKey(mn, n), name)
 				pos := a.M.Prog.Pos(a.M.Blocks[fmt.Sprintf("st_case_%d", n)].Pos)
-				if len(ec.noNewline) == 0 {
-					res.OK(key, pos, fmt.Sprintf("state %d", n), name+" is consumed through the new_line action")
+				if len(ec.noNewline) == 0 && len(ec.nlProblems) > 0 {
+					res.Bad(key, pos, fmt.Sprintf("state %d", n), fmt.Sprintf("after input %s: %s", quoteW(a.Witness[mn][n]), strings.Join(dedupeS(ec.nlProblems), "; ")))
+				} else if len(ec.noNewline) == 0 {
+					res.OK(key, pos, fmt.Sprintf("state %d", n), name+" is consumed through the new_line action, which records the line start p+1 exactly once (a CR before a LF records nothing)")
 				} else {
 					sort.Strings(ec.noNewline)
 					res.Bad(key, pos, fmt.Sprintf("state %d", n), fmt.Sprintf("after input %s a %s is consumed (→ %s) without the action that records the line start: every later token gets a line number that is one too small", quoteW(a.Witness[mn][n]), name, strings.Join(ec.noNewline, ",")))
